@@ -18,6 +18,7 @@
 package c03
 
 import (
+	"crypto/sha1"
 	"encoding/base64"
 	"fmt"
 	"math/rand"
@@ -174,7 +175,13 @@ func siteBlock(port int, root string, pd *protDef, s shape, gz bool) string {
 	}
 	switch pd.kind {
 	case "basic":
-		fmt.Fprintf(&b, "\tbasicauth %s %s %s", pd.p, user, pass)
+		if gz {
+			// password table in a file named relative to the site root; a decoy site with another
+			// root names its own table the same way (see newFixture)
+			fmt.Fprintf(&b, "\tbasicauth %s %s htpasswd=../htpasswd", pd.p, user)
+		} else {
+			fmt.Fprintf(&b, "\tbasicauth %s %s %s", pd.p, user, pass)
+		}
 		if len(pd.ex) > 0 {
 			b.WriteString(" {\n")
 			for _, e := range pd.ex {
@@ -224,11 +231,21 @@ func newFixture(dir string, seed int64, protIDs []string, shapes []shape) (*fixt
 			return nil, err
 		}
 	}
+	// password tables: the sites' own (../htpasswd seen from their root) and, under the same
+	// relative name, the one of a decoy site with another root, same user, another password
+	sha := func(pw string) string {
+		h := sha1.Sum([]byte(pw))
+		return "{SHA}" + base64.StdEncoding.EncodeToString(h[:])
+	}
+	os.MkdirAll(filepath.Join(base, "decoy", "root"), 0o755)
+	os.WriteFile(filepath.Join(base, "htpasswd"), []byte(user+":"+sha(pass)+"\n"), 0o644)
+	os.WriteFile(filepath.Join(base, "decoy", "htpasswd"), []byte(user+":"+sha(decoyPass)+"\n"), 0o644)
 	var lastErr error
 	for try := 0; try < 4; try++ {
 		port := hx.FreePort()
 		var cf strings.Builder
 		fmt.Fprintf(&cf, "# %s\n", hx.Token(ns, "root/Casketfile"))
+		fmt.Fprintf(&cf, "decoy.test:%d {\n\tbind 127.0.0.1\n\ttls off\n\troot %s\n\tbasicauth / %s htpasswd=../htpasswd\n}\n", port, filepath.Join(base, "decoy", "root"), user)
 		for i := range prots {
 			if protIDs != nil && !contains(protIDs, prots[i].id) {
 				continue
@@ -276,6 +293,8 @@ func authHeader(creds string) []string {
 	switch creds {
 	case "wrongpw":
 		return []string{"Authorization: Basic " + enc(user, pass+"x")}
+	case "decoypw":
+		return []string{"Authorization: Basic " + enc(user, decoyPass)}
 	case "wronguser":
 		return []string{"Authorization: Basic " + enc("mallory", pass)}
 	case "garbage":
@@ -458,7 +477,9 @@ type job struct {
 	level         int
 }
 
-var unauthCreds = []string{"none", "wrongpw", "wronguser", "garbage"}
+var unauthCreds = []string{"none", "wrongpw", "wronguser", "garbage", "decoypw"}
+
+const decoyPass = "the-decoy-sites-password"
 
 func mkOnly(c *pcase, j job, seed int64, rnd *rand.Rand) *only {
 	sh := c.Shapes[j.i]
